@@ -17,17 +17,14 @@ def build_trace(programs, results):
         x = r["results"][0]
         if "stdout" in x:
             vals = []
-            bad = False
             for line in x["stdout"].split("\n"):
                 if line == "":
                     continue
                 v = mc.decimal_to_limbs128(line)
-                if v is None:
-                    bad = True
-                    break
-                vals.append(v)
-            if bad:
-                raise common.ToolError("unparsable output line in program %d: %r" % (i, x["stdout"][:200]))
+                # a line that is not a number (seen: "-" printed after a 128-bit division by zero) matches no
+                # value of the machine: the program is accepted only if the specification finds undefined
+                # behaviour before it
+                vals.append(v if v is not None else [])
             where[len(lines) + 1] = i
             lines.append({"ev": "prog", "i": i, "p": p})
             for v in vals:
@@ -37,6 +34,12 @@ def build_trace(programs, results):
             where[len(lines) + 1] = i
             lines.append({"ev": "prog", "i": i, "p": p})
             lines.append({"ev": "hang"})
+        elif str(x.get("lli", "")).startswith("signal"):
+            # the running program was killed by a signal (its buffered output is lost): acceptable only if
+            # the specification finds undefined behaviour in it
+            where[len(lines) + 1] = i
+            lines.append({"ev": "prog", "i": i, "p": p})
+            lines.append({"ev": "crash"})
         else:
             direct.append(i)
     return lines, where, direct
